@@ -99,6 +99,16 @@ class _Model:
 
 
 class Var(_Model):
+    # what a jax Var is KNOWN not to have (so that `hasattr(v, "val")` / duck typing on Literal-ness answers as in JAX)
+    _absent = ("val",)
+
+    def __getattr__(self, name):
+        if name in type(self)._absent:
+            from ..sym import documented
+
+            raise documented(AttributeError("'%s' object has no attribute '%s'" % (type(self).__name__, name)))
+        return _Model.__getattr__(self, name)
+
     def __init__(self, name=None):
         self.count = next(_counter)
         self.name = name or "v%d" % self.count
@@ -113,6 +123,15 @@ class DropVar(Var):
 
 
 class Literal(_Model):
+    _absent = ("count",)
+
+    def __getattr__(self, name):
+        if name in type(self)._absent:
+            from ..sym import documented
+
+            raise documented(AttributeError("'%s' object has no attribute '%s'" % (type(self).__name__, name)))
+        return _Model.__getattr__(self, name)
+
     def __init__(self, val):
         self.val = val
 
